@@ -23,7 +23,8 @@ def AtMostOnce (c : Cfg) : Prop :=
     (c.ws i).running = false ∧ (c.ws i).after ≤ 1 ∧
     ((c.ws i).after = 1 → (c.ws i).pc = .loop ∨ (c.ws i).pc = .done)
 
-/-- between two controller calls: after `start`/`graceful` exactly one worker is armed and alive,
+/-- between two controller calls: after `start`/`graceful` exactly one worker is armed, and it is
+    alive unless its callback raised (then `run()` re-raised and the thread died, still armed);
     after `stop` none is -/
 def GracefulLeavesOne (p : Params) (c : Cfg) : Prop :=
   atBoundary c →
@@ -31,7 +32,8 @@ def GracefulLeavesOne (p : Params) (c : Cfg) : Prop :=
     | some .stop => ∀ j, active p (c.ws j) = false
     | some _ => p.freqPos = true →
         ∃ k, c.thread = some k ∧ active p (c.ws k) = true ∧
-          (c.ws k).pc ≠ .created ∧ (c.ws k).pc ≠ .ret ∧ (c.ws k).pc ≠ .done ∧
+          (c.ws k).pc ≠ .created ∧ (c.ws k).pc ≠ .ret ∧
+          ((c.ws k).pc = .done → (c.ws k).crashed = true) ∧
           ∀ j, active p (c.ws j) = true → j = k
     | none => True
 
@@ -174,19 +176,22 @@ def wdist : WPc → Nat
 /-- facts about worker `i` that make it run off: its `stop()` has returned -/
 def Off (c : Cfg) (i : Nat) : Prop := (c.ws i).stopRet = true
 
-theorem off_stepW {p : Params} {c : Cfg} (i j : Nat) (hp : p.mode = .fixed) (h : Inv p c)
+/-- a turn of worker `i` (with or without a failing callback) -/
+def turnOf (i : Nat) (t : Tid) : Bool := t == .w i || t == .wx i
+
+theorem off_stepW {p : Params} {c : Cfg} (i j : Nat) (boom : Bool) (hp : p.mode = .fixed) (h : Inv p c)
     (ho : Off c i) :
-    Off (stepW p c j) i ∧
-      wdist ((stepW p c j).ws i).pc = if j = i then wdist (c.ws i).pc - 1 else wdist (c.ws i).pc := by
+    Off (stepW p c j boom) i ∧
+      wdist ((stepW p c j boom).ws i).pc ≤ if j = i then wdist (c.ws i).pc - 1 else wdist (c.ws i).pc := by
   have g2 := h.g2 i ho
   have g8 := h.g8 hp i
   simp only [Act, hp] at g2
   unfold stepW Off at *
   by_cases hj : j = i
   · subst hj
-    cases hpc : (c.ws j).pc <;> simp_all [setW, wdist]
+    cases boom <;> cases hpc : (c.ws j).pc <;> simp_all [setW, wdist]
   · have hj' : ¬ i = j := fun h => hj h.symm
-    cases hpc : (c.ws j).pc <;> simp_all [setW, wdist]
+    cases boom <;> cases hpc : (c.ws j).pc <;> simp_all [setW, wdist]
 
 theorem enter_ws (c : Cfg) : (enter c).ws = c.ws := by
   unfold enter; split <;> rfl
@@ -229,40 +234,56 @@ theorem off_stepCtl {p : Params} {c : Cfg} (i : Nat) (hp : p.mode = .fixed) (h :
 theorem off_step {p : Params} {c : Cfg} (i : Nat) (t : Tid) (hp : p.mode = .fixed) (h : Inv p c)
     (ho : Off c i) :
     Inv p (step p c t) ∧ Off (step p c t) i ∧
-      wdist ((step p c t).ws i).pc = if t = .w i then wdist (c.ws i).pc - 1 else wdist (c.ws i).pc := by
+      wdist ((step p c t).ws i).pc ≤
+        if turnOf i t = true then wdist (c.ws i).pc - 1 else wdist (c.ws i).pc := by
   refine ⟨inv_step t h (by simp [okStep, hp]), ?_⟩
   have hlt : i < c.nw := by
     apply Nat.lt_of_not_le
     intro hle
     have := h.g5 i hle
     simp [Off, this] at ho
+  have hdis : ∀ j, (j < c.nw && (c.ws j).pc ≠ .created && (c.ws j).pc ≠ .done) = false → j = i →
+      wdist (c.ws i).pc ≤ wdist (c.ws i).pc - 1 := by
+    intro j hen hji
+    subst hji
+    simp only [hlt, decide_true, Bool.true_and, Bool.and_eq_false_imp, decide_eq_true_eq,
+      decide_eq_false_iff_not, ne_eq, Decidable.not_not] at hen
+    by_cases hc : (c.ws j).pc = .created
+    · simp [hc, wdist]
+    · simp [hen hc, wdist]
   unfold step
   split
   · cases t with
     | ctl =>
       obtain ⟨h1, h2⟩ := off_stepCtl i hp h ho
-      exact ⟨h1, by simp [h2]⟩
+      exact ⟨h1, by simp [h2, turnOf]⟩
     | w j =>
-      obtain ⟨h1, h2⟩ := off_stepW i j hp h ho
+      obtain ⟨h1, h2⟩ := off_stepW i j false hp h ho
       refine ⟨h1, ?_⟩
-      rw [h2]
-      by_cases hj : j = i <;> simp [hj]
+      by_cases hj : j = i <;> simp_all [turnOf]
+    | wx j =>
+      obtain ⟨h1, h2⟩ := off_stepW i j true hp h ho
+      refine ⟨h1, ?_⟩
+      by_cases hj : j = i <;> simp_all [turnOf]
   · rename_i hen
     refine ⟨ho, ?_⟩
-    split
-    · rename_i ht
-      subst ht
-      simp only [enabled, hlt, decide_true, Bool.true_and, Bool.and_eq_true, decide_eq_true_eq,
-        ne_eq, not_and, Decidable.not_not] at hen
-      by_cases hc : (c.ws i).pc = .created
-      · simp [hc, wdist]
-      · simp [hen hc, wdist]
-    · rfl
+    cases t with
+    | ctl => simp [turnOf]
+    | w j =>
+      by_cases hj : j = i
+      · simp only [enabled, Bool.not_eq_true] at hen
+        simpa [turnOf, hj] using hdis j hen hj
+      · simp [turnOf, hj]
+    | wx j =>
+      by_cases hj : j = i
+      · simp only [enabled, Bool.not_eq_true] at hen
+        simpa [turnOf, hj] using hdis j hen hj
+      · simp [turnOf, hj]
 
 theorem wdist_run {p : Params} (hp : p.mode = .fixed) (i : Nat) (sched : List Tid) :
     ∀ c : Cfg, Inv p c → Off c i →
       Inv p (run p c sched) ∧ Off (run p c sched) i ∧
-        wdist ((run p c sched).ws i).pc ≤ wdist (c.ws i).pc - sched.count (.w i) := by
+        wdist ((run p c sched).ws i).pc ≤ wdist (c.ws i).pc - sched.countP (turnOf i) := by
   induction sched with
   | nil => intro c h ho; exact ⟨h, ho, by simp [run]⟩
   | cons t ts ih =>
@@ -270,23 +291,19 @@ theorem wdist_run {p : Params} (hp : p.mode = .fixed) (i : Nat) (sched : List Ti
     obtain ⟨h1, h2, h3⟩ := off_step i t hp h ho
     obtain ⟨k1, k2, k3⟩ := ih (step p c t) h1 h2
     refine ⟨k1, k2, ?_⟩
-    simp only [run]
-    rw [h3] at k3
-    by_cases ht : t = .w i
-    · subst ht
-      simp only [if_true, List.count_cons_self] at k3 ⊢
+    simp only [run, List.countP_cons]
+    by_cases ht : turnOf i t = true
+    · simp only [ht, if_true] at h3 ⊢
       omega
-    · have hc : List.count (Tid.w i) (t :: ts) = List.count (Tid.w i) ts := by
-        rw [List.count_cons]; simp [ht]
-      simp only [ht, if_false] at k3
-      rw [hc]
-      exact k3
+    · simp only [ht] at h3 ⊢
+      simp only [Bool.false_eq_true, if_false] at h3 ⊢
+      omega
 
 /-- "... and then never again", as progress: a worker whose `stop()` has returned leaves `run`
     within 3 of its own steps, whatever all other threads do in between (repaired protocol). -/
 theorem C20_cancelled_worker_terminates (p : Params) (calls : List Call) (c : Cfg)
     (hp : p.mode = .fixed) (h : ReachAll p calls c) (i : Nat) (hs : (c.ws i).stopRet = true)
-    (sched : List Tid) (hf : 3 ≤ sched.count (.w i)) : ((run p c sched).ws i).pc = .done := by
+    (sched : List Tid) (hf : 3 ≤ sched.countP (turnOf i)) : ((run p c sched).ws i).pc = .done := by
   have hi := inv_of_reach (reachAll_fixed hp h)
   obtain ⟨k1, k2, k3⟩ := wdist_run hp i sched c hi hs
   have hb : wdist (c.ws i).pc ≤ 3 := by cases (c.ws i).pc <;> simp [wdist]
@@ -295,6 +312,82 @@ theorem C20_cancelled_worker_terminates (p : Params) (calls : List Call) (c : Cf
   have g8 := k1.g8 hp i
   cases hpc : ((run p c sched).ws i).pc <;> simp_all [wdist]
 
+
+
+/-! ### a callback that raises (`Tid.wx`): `BackgroundTask.run` logs, re-raises, the worker dies
+
+  All theorems above quantify over schedules that contain such turns.  What `Monitor` does with
+  the dead worker: it stays `Monitor.thread` and stays armed (`running`), but it is inert; `stop()`
+  cancels it, joins it at once and clears `Monitor.thread` (covered by `GracefulLeavesOne` /
+  `C20_stop_joins_nondaemon`); `start()` finds `thread is not None` and starts NOTHING
+  (`C20_start_keeps_dead_worker`), `graceful()` replaces it (`C20_graceful_replaces_dead_worker`). -/
+
+/-- a worker whose callback raised has left `run`, is never scheduled again and invokes nothing -/
+theorem C20_dead_worker_inert (p : Params) (calls : List Call) (c : Cfg) (h : Reach p calls c)
+    (i : Nat) (hc : (c.ws i).crashed = true) :
+    (c.ws i).pc = .done ∧ enabled c (.w i) = false ∧ enabled c (.wx i) = false ∧
+      ∀ b, stepW p c i b = c := by
+  have hd := (inv_of_reach h).g9 i hc
+  refine ⟨hd, by simp [enabled, hd], by simp [enabled, hd], fun b => by simp [stepW, hd]⟩
+
+def crashP : Params := { mode := .fixed }
+
+/-- `start(); <callback raises>; start()`: the second `start()` returns without starting a worker —
+    no live worker is left (the dead one is still `Monitor.thread`, still armed) -/
+theorem C20_start_keeps_dead_worker :
+    let c := run crashP (init [.start, .start]) (ctlN 11 ++ wN 0 5 ++ [.wx 0] ++ ctlN 6)
+    c.cpc = .done ∧ c.nret = 2 ∧ c.nw = 1 ∧ c.thread = some 0 ∧ (c.ws 0).crashed = true ∧
+      (c.ws 0).pc = .done ∧ (c.ws 0).running = true ∧ (c.ws 0).calls = 1 := by
+  decide +kernel
+
+/-- `start(); <callback raises>; graceful()`: the dead worker is disarmed and a fresh one started -/
+theorem C20_graceful_replaces_dead_worker :
+    let c := run crashP (init [.start, .graceful]) (ctlN 11 ++ wN 0 5 ++ [.wx 0] ++ ctlN 30)
+    c.cpc = .done ∧ c.nret = 2 ∧ c.nw = 2 ∧ c.thread = some 1 ∧ (c.ws 0).running = false ∧
+      (c.ws 0).pc = .done ∧ (c.ws 1).running = true ∧ (c.ws 1).pc = .held := by
+  decide +kernel
+
+/-- reachability by schedules in which no callback raises -/
+inductive ReachQuiet (p : Params) (calls : List Call) : Cfg → Prop where
+  | init : ReachQuiet p calls (init calls)
+  | step {c : Cfg} (t : Tid) : ReachQuiet p calls c → (∀ i, t ≠ .wx i) →
+      ReachQuiet p calls (step p c t)
+
+theorem retStop_crashed (c : Cfg) (i : Nat) : ((retStop c).ws i).crashed = (c.ws i).crashed := by
+  unfold retStop
+  cases hc : c.cancelled with
+  | none => simp only []; split <;> simp [retTop_ws]
+  | some k =>
+    simp only []
+    split <;> simp only [retTop_ws, setW] <;> (by_cases hik : i = k <;> simp [hik])
+
+theorem quiet_stepCtl {p : Params} {c : Cfg} (h : ∀ i, (c.ws i).crashed = false) :
+    ∀ i, ((stepCtl p c).ws i).crashed = false := by
+  intro i
+  have hi := h i
+  unfold stepCtl
+  cases hpc : c.cpc <;> simp only [] <;> (try split) <;> (try split) <;> (try split) <;>
+    (try simp only [retStart_ws, retStop_crashed, setW]) <;> (try split) <;> simp_all
+
+/-- if no callback raises no worker dies armed: together with `C20_graceful_leaves_one` the worker
+    left by `start`/`graceful` is ALIVE (`pc ≠ done`) -/
+theorem C20_no_raise_no_dead_worker (p : Params) (calls : List Call) (c : Cfg)
+    (h : ReachQuiet p calls c) : ∀ i, (c.ws i).crashed = false := by
+  induction h with
+  | init => intro i; unfold init enter; split <;> rfl
+  | @step c t _ hq ih =>
+    unfold step
+    split
+    · cases t with
+      | ctl => exact quiet_stepCtl ih
+      | w j =>
+        intro i
+        have hi := ih i
+        have hj := ih j
+        unfold stepW
+        by_cases hij : i = j <;> cases hpc : (c.ws j).pc <;> simp_all [setW]
+      | wx j => exact absurd rfl (hq j)
+    · exact ih
 
 /-! ### trace inclusion: what an admitted implementation trace inherits
 
